@@ -59,7 +59,16 @@ def session_kinds():
         for ap in (0, 3):
             for nh in (False, True):
                 out.append({'asn4': asn4, 'addpath': ap, 'nexthop': nh, 'name': f'{"asn4" if asn4 else "as2"}/{"ap" if ap else "noap"}/{"enh" if nh else "noenh"}'})
+    # ADD-PATH negotiated one way only (we receive, the peer sends / we send, the peer receives)
+    out.append({'asn4': True, 'addpath': 1, 'nexthop': False, 'name': 'asn4/ap-recv-only/noenh'})
+    out.append({'asn4': True, 'addpath': 2, 'nexthop': False, 'name': 'asn4/ap-send-only/noenh'})
     return out
+
+
+def expected_recv_addpath(sk) -> set:
+    """path identifiers precede what we receive when we advertised receive and the mirrored peer send: from the
+    configuration (1 receive, 3 both), not from ExaBGP's own negotiation"""
+    return {(1, 1), (2, 1), (1, 4), (2, 4), (1, 128), (2, 128)} if sk['addpath'] in (1, 3) else set()
 
 
 def build_session(sk):
@@ -377,7 +386,7 @@ def run_shard(desc):
     nvalid = desc['inputs'] // 5
     for i in range(nvalid):
         sk, (nb, neg) = sess(i + desc['shard'])
-        recv_ap = {(int(a), int(s)) for (a, s), v in neg.addpath._receive.items() if v}
+        recv_ap = expected_recv_addpath(sk)
         s = {'asn4': sk['asn4'], 'addpath': recv_ap, 'ibgp': False}
         t = r.random()
         if t < 0.75:
@@ -481,7 +490,7 @@ def run_shard(desc):
             continue
         sk, (nb, neg) = sess(ui + desc['shard'])
         maxsize = int(neg.msg_size) - 19
-        recv_ap = {(int(a), int(s)) for (a, s), v in neg.addpath._receive.items() if v}
+        recv_ap = expected_recv_addpath(sk)
         ap4, ap6 = (1, 1) in recv_ap, (2, 1) in recv_ap
         unit = UNIT_SIZE[kind] + (4 if (ap4 and kind in ('many-nlri', 'many-withdraw')) or (ap6 and kind == 'many-mp-nlri') else 0)
         kmax = max(8, (maxsize - 200) // unit)
